@@ -26,7 +26,8 @@ import VM.Canon
                                                            a fresh executor with cache_in = file <slot> (cache_deps_of targets
                                                            = noncache) called once (VM.xRun); the answer carries `F <keys>`:
                                                            the ids the model says the file holds (n, n+1 = the DAG's parameters)
-    O <inst> xrestart <slot> <k> <sel>^k <na> <value>^na   a fresh executor with from_cache = file <slot> called once
+    O <inst> xrestart <slot> <k> <sel>^k <na> <value>^na [W <slot'>]  a fresh executor with from_cache = file <slot> (and
+                                                           cache_in = file <slot'>, which may be the same file) called once
     O <inst> xmk <xid> <k> <sel>^k [C <slot>]              (C <slot>: with from_cache = file <slot>, read when the object is CALLED)
                                                            an executor object is CREATED on the instance and kept (xid = 0,1,2,… in
                                                            creation order); nothing runs                 -> <id> <opidx> NOOP
@@ -256,18 +257,24 @@ def main : IO Unit := do
             xobjs := xobjs.setIfInBounds xid.toNat! (ix, r.2.1)
         | "O" :: inst :: "xrestart" :: slot :: k :: r =>
           let (sel, r1) := takeNats k.toNat! r
-          let args := match r1 with
-            | na :: r2 => (match pVal.pVals na.toNat! r2 with | some (l, _) => l | none => [])
-            | [] => []
+          let (args, rest) := match r1 with
+            | na :: r2 => (match pVal.pVals na.toNat! r2 with | some (l, r3) => (l, r3) | none => ([], []))
+            | [] => ([], [])
+          -- `W <slot'>`: the restarted executor also has cache_in = file <slot'> (possibly the file it reads)
+          let wr? : Option Nat := match rest with | ["W", s'] => s'.toNat? | _ => none
           let it := insts.getD inst.toNat! ⟨dag, res0⟩
-          let spec : XSpec := ⟨sel, fun _ => false, none, some slot.toNat!⟩
+          let spec : XSpec := ⟨sel, fun _ => false, wr?, some slot.toNat!⟩
           let w : World Val := ⟨it, files⟩
           match xStart w spec with
           | none => IO.println s!"{sid} {idx} NOFILE"
           | some start =>
             let r := xRun w (XObj.fresh spec) args
-            IO.println (report sid idx n (xCfgOf it spec start args))
+            let fk := match wr?, r.2.2 with
+              | some s', .ok _ => (match r.1.files s' with | some f => fileKeys n f | none => "")
+              | _, _ => ""
+            IO.println (reportF sid idx n (xCfgOf it spec start args) fk)
             insts := insts.setIfInBounds inst.toNat! r.1.inst
+            files := r.1.files
         | _ => IO.println s!"{sid} {idx} PARSE"
         idx := idx + 1
         i := i + 1
